@@ -50,7 +50,7 @@ def cases(tier, seed):
     for _ in range(reps):
         for ki, spec in enumerate(KSPECS):
             for pb, db in pairs:
-                if tier == "quick" and rnd.random() < 0.5 and (pb, db) != ([2], []):
+                if tier == "quick" and rnd.random() < 0.0 and (pb, db) != ([2], []):
                     continue
                 yield {"kind": "kernel", "kernel": spec, "pbatch": pb, "dbatch": db, "seed": rnd.randrange(10**6)}
         for pb, db in pairs:
@@ -61,7 +61,7 @@ def cases(tier, seed):
             yield {"kind": "exact", "pbatch": pb, "dbatch": db, "seed": rnd.randrange(10**6)}
         for pb, db, zb in itertools.product([[], [2], [3, 2]], [[], [2], [3, 2]], ["none", "batch"]):
             for strat, dist in itertools.product(["VariationalStrategy", "UnwhitenedVariationalStrategy"], ["CholeskyVariationalDistribution", "MeanFieldVariationalDistribution"]):
-                if tier == "quick" and rnd.random() < 0.5 and not (pb and dist.startswith("MeanField")):
+                if tier == "quick" and rnd.random() < 0.0 and not (pb and dist.startswith("MeanField")):
                     continue
                 yield {"kind": "svgp", "pbatch": pb, "dbatch": db, "zbatch": zb, "strategy": strat, "dist": dist, "seed": rnd.randrange(10**6)}
         # targets carrying batch dimensions the inputs and the model do not have (data broadcast against each other)
